@@ -9,6 +9,8 @@ import gen
 from facts import strip_generics
 out = {}
 callers = {}
+adts = {}
+free_fns = {}
 for cfg in ("cfgA", "cfgB", "cfgC", "cfgE"):
     d = gen.generate(cfg, "/repo")
     for f in sorted(glob.glob(os.path.join(d, "*.json"))):
@@ -23,6 +25,8 @@ for cfg in ("cfgA", "cfgB", "cfgC", "cfgE"):
         for b in j["bodies"]:
             if b["kind"] in ("Fn", "AssocFn"):
                 s.add(strip_generics(b["path"]))
+        adts.setdefault(name, set()).update(a["path"] for a in j["adts"] if a["path"].startswith(name + "::"))
+        free_fns.setdefault(name, set()).update(strip_generics(b["path"]) for b in j["bodies"] if b["kind"] == "Fn")
         keys = {strip_generics(b["path"]) for b in j["bodies"] if b["kind"] in ("Fn", "AssocFn")}
         cm = callers.setdefault(name, {})
         for b in j["bodies"]:
@@ -36,6 +40,8 @@ for cfg in ("cfgA", "cfgB", "cfgC", "cfgE"):
                         if ck in keys and ck != owner:
                             cm.setdefault(ck, set()).add(owner)
 json.dump({k: sorted(v) for k, v in sorted(out.items())}, open(os.path.join(V, "rules", "known_functions.json"), "w"), indent=0)
+json.dump({"adts": {k: sorted(v) for k, v in sorted(adts.items())}, "free_fns": {k: sorted(v) for k, v in sorted(free_fns.items())}},
+          open(os.path.join(V, "rules", "known_items.json"), "w"), indent=0)
 json.dump({c: {k: sorted(v) for k, v in sorted(m.items())} for c, m in sorted(callers.items())},
           open(os.path.join(V, "rules", "known_callers.json"), "w"), indent=0)
 print({k: len(v) for k, v in out.items()})
